@@ -92,3 +92,21 @@ def dpt_table():
     body += f"/-- {len(rows)} concrete DPT classes (DPTBase.dpt_class_tree), sorted by name -/\n"
     body += "def table : List Row := [\n" + ",\n".join(rows) + "\n]\n\nend XknxVerif.DPT.Generated\n"
     return body
+
+
+@section("DPTParams")
+def dpt_params():
+    """Distinct numeric parameter tuples of the families whose theorems are proved by numeric sweeps."""
+    from harness import dptlib as D
+
+    s16 = []
+    for cls in D.CLASSES:
+        if D.FAM[cls.__name__] == "s16":
+            t = (lean_num(cls.value_min), lean_num(cls.value_max), lean_num(cls.resolution))
+            if t not in s16:
+                s16.append(t)
+    body = "import XknxVerif.Model.DPT.Types\n\nnamespace XknxVerif.DPT.Generated\nopen XknxVerif.DPT\n\n"
+    body += "/-- distinct (value_min, value_max, resolution) of the DPT 8 classes -/\n"
+    body += "def s16ParamList : List (PyNum × PyNum × PyNum) := [\n" + ",\n".join(f"  ({a}, {b}, {c})" for a, b, c in s16) + "\n]\n"
+    body += "\nend XknxVerif.DPT.Generated\n"
+    return body
